@@ -479,7 +479,94 @@ theorem ensureRoom_spec (a : Arr) (m : Mem) (hinv : a.Inv) :
     have hlt : a.size < a.capacity := by omega
     exact ⟨Or.inl ⟨rfl, rfl, rfl, hlt, h2, rfl, Or.inl rfl⟩, rfl, rfl⟩
 
-theorem zipAdd_eq (a1 a2 : Arr) (it : ArrIter) (x y : Nat) (m : Mem) :
+theorem ensureRoom_inv (a : Arr) (m : Mem) (hinv : a.Inv) : (ensureRoom a m).2.1.Inv := by
+  rcases (ensureRoom_spec a m hinv).1 with ⟨_, _, h2, h3, h4, _, h6⟩ | ⟨_, hsame⟩
+  · obtain ⟨i1, i2, i3, i4⟩ := hinv
+    refine ⟨by omega, h4, ?_, ?_⟩ <;> rcases h6 with h6 | ⟨_, h6, h7, h8⟩ <;> omega
+  · rw [hsame]; exact hinv
+
+/-- the two insertions of `cc_array_zip_iter_add` once both arrays have room — both or none (A11):
+the status of each inner `add_at` is returned, and when the second fails the first element is taken
+out again -/
+def zipAddCore (b1 b2 : Arr) (it : ArrIter) (x y : Nat) (m : Mem) : Stat × Arr × Arr × ArrIter × Mem :=
+  let r1 := b1.addAt x it.index m
+  if r1.1 != .ok then (r1.1, r1.2.1, b2, it, r1.2.2) else
+  let r2 := b2.addAt y it.index r1.2.2
+  if r2.1 != .ok then
+    let u := r1.2.1.removeAt it.index r2.2.2
+    (r2.1, u.2.2.1, r2.2.1, it, u.2.2.2) else
+  (.ok, r1.2.1, r2.2.1, { it with index := it.index + 1 }, r2.2.2)
+
+theorem zipAdd_unfold (a1 a2 : Arr) (it : ArrIter) (x y : Nat) (m : Mem) :
+    zipAdd a1 a2 it x y m =
+      if (ensureRoom a1 m).1 != .ok then (.errAlloc, (ensureRoom a1 m).2.1, a2, it, (ensureRoom a1 m).2.2) else
+      if (ensureRoom a2 (ensureRoom a1 m).2.2).1 != .ok then
+        (.errAlloc, (ensureRoom a1 m).2.1, (ensureRoom a2 (ensureRoom a1 m).2.2).2.1, it,
+          (ensureRoom a2 (ensureRoom a1 m).2.2).2.2) else
+      zipAddCore (ensureRoom a1 m).2.1 (ensureRoom a2 (ensureRoom a1 m).2.2).2.1 it x y
+        (ensureRoom a2 (ensureRoom a1 m).2.2).2.2 := by
+  unfold zipAdd zipAddCore ensureRoom
+  rfl
+
+/-- with room in both arrays the two insertions touch no memory; for a cursor inside both arrays both
+succeed, for any other cursor value the call reports `CC_ERR_OUT_OF_RANGE` with both contents, the
+second array and the cursor as they were (the first array physically: an insertion undone) -/
+theorem zipAddCore_room (b1 b2 : Arr) (it : ArrIter) (x y : Nat) (m : Mem) (h1 : b1.Inv) (h2 : b2.Inv)
+    (r1 : b1.size < b1.capacity) (r2 : b2.size < b2.capacity) :
+    (zipAddCore b1 b2 it x y m).2.2.2.2 = m ∧
+    ((it.index ≤ b1.size ∧ it.index ≤ b2.size ∧
+        zipAddCore b1 b2 it x y m = (.ok, (b1.addAt x it.index m).2.1, (b2.addAt y it.index m).2.1,
+          { it with index := it.index + 1 }, m)) ∨
+     (¬ (it.index ≤ b1.size ∧ it.index ≤ b2.size) ∧ (zipAddCore b1 b2 it x y m).1 = .errOutOfRange ∧
+        (zipAddCore b1 b2 it x y m).2.1.abs = b1.abs ∧ (zipAddCore b1 b2 it x y m).2.1.size = b1.size ∧
+        Kept b1 (zipAddCore b1 b2 it x y m).2.1 ∧ (zipAddCore b1 b2 it x y m).2.2.1 = b2 ∧
+        (zipAddCore b1 b2 it x y m).2.2.2.1 = it)) := by
+  by_cases hi1 : it.index ≤ b1.size
+  · obtain ⟨p1, p2, p3, p4, p5⟩ := addAt_room b1 x it.index m r1 h1.2.1 hi1
+    by_cases hi2 : it.index ≤ b2.size
+    · obtain ⟨q1, q2, q3, q4, q5⟩ := addAt_room b2 y it.index m r2 h2.2.1 hi2
+      have e : zipAddCore b1 b2 it x y m = (.ok, (b1.addAt x it.index m).2.1, (b2.addAt y it.index m).2.1,
+          { it with index := it.index + 1 }, m) := by
+        unfold zipAddCore
+        simp only [p1, p5, q1, q5, bne_self_eq_false, Bool.false_eq_true, if_false]
+      exact ⟨by rw [e], Or.inl ⟨hi1, hi2, e⟩⟩
+    · have q := addAt_range b2 y it.index m (by omega)
+      obtain ⟨k1, k2, k3⟩ := p4
+      have hinv' : (b1.addAt x it.index m).2.1.Inv := by
+        obtain ⟨i1, i2, i3, i4⟩ := h1
+        exact ⟨by omega, by omega, by omega, by omega⟩
+      obtain ⟨u1, u2, u3, u4, u5, u6, _, _, _⟩ := removeAt_spec (b1.addAt x it.index m).2.1 it.index m hinv'
+      have hsp : Spec.Seq.removeAt (b1.abs.insertIdx it.index x) it.index = (.ok, some x, b1.abs) := by
+        have hl : it.index < (b1.abs.insertIdx it.index x).length := by
+          rw [List.length_insertIdx]; simp only [abs_length]; split <;> omega
+        unfold Spec.Seq.removeAt
+        simp only [hl, if_true, List.eraseIdx_insertIdx_self]
+        congr 2
+        rw [List.getD_eq_getElem?_getD, List.getElem?_insertIdx_self, if_pos (by simp only [abs_length]; exact hi1)]
+        rfl
+      rw [p2, hsp] at u1 u3
+      have e : zipAddCore b1 b2 it x y m = (.errOutOfRange, ((b1.addAt x it.index m).2.1.removeAt it.index m).2.2.1, b2, it,
+          ((b1.addAt x it.index m).2.1.removeAt it.index m).2.2.2) := by
+        unfold zipAddCore
+        simp only [p1, p5, q, bne_self_eq_false, Bool.false_eq_true, if_false]
+        rfl
+      rw [e]
+      refine ⟨u6, Or.inr ⟨fun h => hi2 h.2, rfl, u3, ?_, ⟨by rw [u4.1, k1], by rw [u4.2.1, k2], by rw [u4.2.2, k3]⟩, rfl, rfl⟩⟩
+      have := (removeAt_spec (b1.addAt x it.index m).2.1 it.index m hinv').2.2.2.2.2.2.2.2 u1
+      show ((b1.addAt x it.index m).2.1.removeAt it.index m).2.2.1.size = b1.size
+      omega
+  · have q := addAt_range b1 x it.index m (by omega)
+    have e : zipAddCore b1 b2 it x y m = (.errOutOfRange, b1, b2, it, m) := by
+      unfold zipAddCore
+      simp only [q]
+      rfl
+    rw [e]
+    exact ⟨rfl, Or.inr ⟨fun h => hi1 h.1, rfl, rfl, rfl, Kept.refl b1, rfl, rfl⟩⟩
+
+/-- for a cursor inside both arrays (every cursor a zip iterator over two arrays can reach)
+`cc_array_zip_iter_add` is: room in the first, room in the second, then the two insertions -/
+theorem zipAdd_eq (a1 a2 : Arr) (it : ArrIter) (x y : Nat) (m : Mem) (h1 : a1.Inv) (h2 : a2.Inv)
+    (hi1 : it.index ≤ a1.size) (hi2 : it.index ≤ a2.size) :
     zipAdd a1 a2 it x y m =
       if (ensureRoom a1 m).1 != .ok then (.errAlloc, (ensureRoom a1 m).2.1, a2, it, (ensureRoom a1 m).2.2) else
       if (ensureRoom a2 (ensureRoom a1 m).2.2).1 != .ok then
@@ -490,7 +577,28 @@ theorem zipAdd_eq (a1 a2 : Arr) (it : ArrIter) (x y : Nat) (m : Mem) :
           ((ensureRoom a1 m).2.1.addAt x it.index (ensureRoom a2 (ensureRoom a1 m).2.2).2.2).2.2).2.1,
         { it with index := it.index + 1 },
         ((ensureRoom a2 (ensureRoom a1 m).2.2).2.1.addAt y it.index
-          ((ensureRoom a1 m).2.1.addAt x it.index (ensureRoom a2 (ensureRoom a1 m).2.2).2.2).2.2).2.2) := rfl
+          ((ensureRoom a1 m).2.1.addAt x it.index (ensureRoom a2 (ensureRoom a1 m).2.2).2.2).2.2).2.2) := by
+  rw [zipAdd_unfold]
+  split
+  · rfl
+  · split
+    · rfl
+    · rename_i n1 n2
+      have o1 : (ensureRoom a1 m).1 = .ok := by simpa using n1
+      have o2 : (ensureRoom a2 (ensureRoom a1 m).2.2).1 = .ok := by simpa using n2
+      rcases (ensureRoom_spec a1 m h1).1 with ⟨_, _, c1, d1, e1, _⟩ | ⟨n, _⟩
+      · rcases (ensureRoom_spec a2 (ensureRoom a1 m).2.2 h2).1 with ⟨_, _, c2, d2, e2, _⟩ | ⟨n', _⟩
+        · obtain ⟨hm, hc⟩ := zipAddCore_room (ensureRoom a1 m).2.1 (ensureRoom a2 (ensureRoom a1 m).2.2).2.1 it x y
+            (ensureRoom a2 (ensureRoom a1 m).2.2).2.2 (ensureRoom_inv a1 m h1) (ensureRoom_inv a2 _ h2) d1 d2
+          rcases hc with ⟨_, _, e⟩ | ⟨hn, _⟩
+          · have p5 := (addAt_room (ensureRoom a1 m).2.1 x it.index (ensureRoom a2 (ensureRoom a1 m).2.2).2.2 d1 e1
+              (by omega)).2.2.2.2
+            have q5 := (addAt_room (ensureRoom a2 (ensureRoom a1 m).2.2).2.1 y it.index
+              (ensureRoom a2 (ensureRoom a1 m).2.2).2.2 d2 e2 (by omega)).2.2.2.2
+            rw [e, p5, q5]
+          · exact absurd ⟨by omega, by omega⟩ hn
+        · exact absurd o2 n'
+      · exact absurd o1 n
 
 /-- `cc_array_zip_iter_add`: on success a pair is inserted after the pair yielded last and the cursor
 steps over it; when either array cannot make room the call reports `CC_ERR_ALLOC`, both contents
@@ -512,7 +620,7 @@ theorem zipAdd_sim (a1 a2 : Arr) (it : ArrIter) (z : ZipCursor) (x y : Nat) (m :
     (zipAdd a1 a2 it x y m).2.2.2.2.live = m.live ∧ (zipAdd a1 a2 it x y m).2.2.2.2.fault = m.fault := by
   obtain ⟨l1, l2⟩ := hs.index_le
   obtain ⟨s1, s2, s3, s4, s5⟩ := hs
-  rw [zipAdd_eq]
+  rw [zipAdd_eq a1 a2 it x y m hi1 hi2 l1 l2]
   obtain ⟨r1, rl1, rf1⟩ := ensureRoom_spec a1 m hi1
   obtain ⟨r2, rl2, rf2⟩ := ensureRoom_spec a2 (ensureRoom a1 m).2.2 hi2
   rcases r1 with ⟨o1, b1, c1, d1, e1, f1, g1⟩ | ⟨n1, same1⟩
